@@ -9,7 +9,7 @@ TokAlphabet == {"a", " ", "'", "\"", "\\", "-", "=", "U"}
 MCWS == {" ", "\t", "<VT>"}               \* <VT> stands for a vertical tab: whitespace beyond blank and tab
 CharToks == UNION { [1..k -> TokAlphabet] : k \in 0..MaxTokLen }
 WordToks == { <<"h", "e", "l", "p">>, <<"a">>, <<"a", "a">>, <<"-", "h">>, <<"-", "-">>, <<"x">>,
-              <<"-", "-", "o", "p", "t">>, <<"-", "f">>, <<"-">> }
+              <<"-", "-", "o", "p", "t">>, <<"-", "f">>, <<"-">>, <<"#", "x">> }
 AllStyles == {"sq", "dq", "no"}
 BareOnly == {"no", "dq"}
 CharSeps == {<<" ">>, <<"\t">>, <<" ", "<VT>">>}
